@@ -77,6 +77,44 @@ def translate(ctx):
     return text
 
 
+def ircode_renderings(ctx):
+    """The MCE renderings a code object hands out (IRCode.original_rlc_mce / normalized_rlc_mce) are the normalisation of the timing
+    lists the object holds NOW: read once, then join another code to it (code + code, frame-accumulating decoders do the same in
+    place), read again."""
+    from pyIRDecoder import protocols, utils
+    import protoinfo
+    import gen_inputs
+    for pname in ('NEC', 'Sony12', 'JVC', 'RC5', 'Panasonic'):
+        p = protoinfo.by_name().get(pname)
+        if p is None:
+            continue
+        al = gen_inputs.param_assignments(p, ctx.rng, 3)
+        try:
+            c1 = p['cls']().encode(**al[0])
+            c2 = p['cls']().encode(**al[-1])
+        except Exception:  # noqa
+            continue
+        try:
+            for step in ('fresh', 'joined', 'joined again'):
+                want_o = utils.build_mce_rlc(list(c1.original_rlc))
+                want_n = [x for f in c1.normalized_rlc for x in utils.build_mce_rlc(list(f))]
+                got_o, got_n = list(c1.original_rlc_mce), list(c1.normalized_rlc_mce)
+                ctx.count_eval(key=('ircode-mce', pname, step))
+                if got_o != want_o or got_n != want_n:
+                    ctx.report('IRCode', 'MCE rendering is not the normalisation of the timings the code holds', dict(step=step),
+                               dict(protocol=pname, params=al[0], joined_with=al[-1], step=step, lengths=dict(
+                                   original=len(want_o), original_mce=len(got_o), normalized=len(want_n), normalized_mce=len(got_n))))
+                    break
+                c1 = c1 + c2
+        finally:
+            for c in (c1, c2):
+                try:
+                    c.repeat_timer.cancel()
+                except Exception:  # noqa
+                    pass
+    vlib.drain_workers()
+
+
 def run(ctx):
     pyir = vlib.import_repo()
     from pyIRDecoder import utils
@@ -224,6 +262,7 @@ Definition runm (a : shape) : list Z := let '(r, a') := rlc_to_mce build_mce_rlc
                            dict(call='utils.build_mce_rlc', arg=fl, note='the conversion must return a new list'))
                 break
     ctx.extra['search'] = dict(exhaustive_domain='[-200000, 200000]', shapes=len(shapes))
+    ircode_renderings(ctx)
     ctx.cov['rule'] = ('search: every integer of [-200000,200000] through utils.build_mce_rlc (each distinct) '
                        '+ random flat/nested shapes through rlc_to_mce; distinct = distinct inputs')
     ctx.cov['exhaustive'] = True
